@@ -81,7 +81,7 @@ add_sym = op('add_sym', d=I, form=st.integers(0, 3), jol=st.booleans(), tgt=I, s
 rm_sym = op('rm_sym', i=I)
 hide = op('hide', i=I, via=st.integers(0, 1), on=st.sampled_from([1, 1, 0]))
 dup_pvd = op('dup_pvd')
-set_reloc = op('set_reloc', sz=st.integers(0, 2), lead=I, salt=I)
+set_reloc = op('set_reloc', sz=st.integers(0, 2), lead=I, salt=I, rsz=st.sampled_from([0, 1, 2, 3, 4, 5, 6, 8]))
 force = op('force')
 query = op('query', q=st.integers(0, 5), i=I)
 write = op('write')
@@ -91,7 +91,7 @@ add_boot = op('add_boot', b=I, j=I, d=I, media=st.integers(0, 4), plat=st.intege
               seg=st.sampled_from([0, 0, 0x7c0, 0x1000]), bootable=st.sampled_from([1, 1, 1, 0]), efi=st.booleans(), bit=st.booleans(),
               catexplicit=st.booleans(), csz=st.integers(0, 2), sz=SZ, rsz=st.integers(0, 2), usz=st.integers(0, 2), lead=I, salt=I)
 rm_boot = op('rm_boot')
-link_cat = op('link_cat', to=I, d=I, sz=SZ, rsz=st.integers(0, 2), usz=st.integers(0, 2), lead=I, salt=I)
+link_cat = op('link_cat', to=I, d=I, sz=SZ, rsz=st.integers(0, 2), usz=st.integers(0, 2), lead=I, salt=I, byname=st.sampled_from([0, 0, 1, 2, 3]))
 add_hybrid = op('add_hybrid', pe=st.integers(1, 4), mbr_id=st.one_of(NONE, st.integers(0, 0xffffffff)), po=st.sampled_from([0, 0, 0, 1, 16, 63]),
                 gs=st.one_of(st.just(32), st.integers(1, 63)), gh=st.one_of(st.just(64), st.integers(1, 256)),
                 pt=st.one_of(NONE, st.sampled_from([0, 0x17, 0x83, 0xef])), mac=st.sampled_from([False, False, True]),
